@@ -18,4 +18,13 @@ PROPS = {
         "explanation": "SetJSONMode/SetColorMode/setentry are regenerated from /repo; theorems: (JSON and colour) unreachable, every call and every sequence of calls refines the 3-state specification (induction), getters and encoder selection agree with the format, other loggers untouched. Correspondence: exhaustive enumeration of call sequences in three application styles.",
         "assumptions": ["With*() = newChildLogger (inherits both bits, C10) followed by the Set* body; New(name, opts...) applies options in order"],
     },
+    "C12": {
+        "modules": ["Logg.Props.C12"],
+        "flavor": "prod",
+        "thorough_seeds": 1,
+        "explanation": "The tail of logContext is regenerated as Gen.terminate and proved equal to the termination rule of the statement for all severities, flag words and both process modes; print precedes panic/exit in the regenerated call order; no log/slog level other than the explicit constants reaches Panic/Fatal (all integers). Correspondence: one child process per cell of the matrix, production and go-test mode.",
+        "assumptions": ["os.Exit(-3) yields exit status 253 and panic(msg) unwinds to the caller (Go runtime)",
+                        "is.InTesting() is decided from os.Args at init (harness.test -test.v emulates go test)"],
+        "trusted": ["os.Exit / panic semantics of the Go runtime; is.InTesting()"],
+    },
 }
